@@ -89,7 +89,7 @@ theorem lookup_shape : ∀ (idx : List (String × Index)) (n : String),
 /-- `Collection.CreateIndex` = the Spec's createIndex -/
 theorem createIndex_abs {c : Coll} (hc : Coherent sch c) (hok : DocsOk c.docs) (name : String) (cfg : IndexConfig) :
     (c.createIndex sch name cfg).map (fun r => (absC r.1, r.2)) = (absC c).createIndex sch name cfg := by
-  unfold Coll.createIndex SColl.createIndex
+  unfold Coll.createIndex SColl.createIndex SColl.hasSame
   cases hn : (if name == "" then cfg.name else Except.ok name) with
   | error e => rfl
   | ok nm =>
